@@ -156,6 +156,16 @@ def build():
     fns.append(mk(len(fns), "g", "lfu", limit=3, ttl=1, ret=3))
     fns.append(mk(len(fns), "t", "lru", limit=2, ttl=2, ret=2))
     fns.append(mk(len(fns), "a", "fifo", limit=2, ttl=2, ret=2))
+    # two adjacent string parameters whose values contain the separator: ("k|m", "n") / ("k", "m|n") (C01/C02)
+    for fl in ["g", "t", "a"]:
+        fns.append(mk(len(fns), fl, "lru", sig=9))
+    # user-estimator values in caches with a tag: a thread can be parked inside a store (in the estimator, under the
+    # queue lock) while another thread invalidates by tag (C12, C17, C18)
+    fns.append(mk(len(fns), "a", "lru", mem=MEMS[5], ret=5, tags=("t1",)))
+    fns.append(mk(len(fns), "g", "lru", mem=MEMS[5], ret=5, tags=("t1",)))
+    # many caches under ONE tag and ONE event (more than any batch size a registry might use)
+    for i in range(18):
+        fns.append(mk(len(fns), "g" if i % 2 == 0 else "a", "fifo", limit=2, tags=("mass",), events=("massev",)))
     return fns
 
 
@@ -200,13 +210,15 @@ SIG_PARAMS = {
     6: "a: u32, b: u32",
     7: "&self, r: Rest2, k: u32",
     8: "key: u32, result: u32, part: u32, cache: u32",
+    9: "a: &str, b: String, k: u32",
 }
-SIG_X = {0: "k", 1: "a", 2: "k", 3: "0u32", 4: "a", 5: "c", 6: "b", 7: "k", 8: "part"}
+SIG_X = {0: "k", 1: "a", 2: "k", 3: "0u32", 4: "a", 5: "c", 6: "b", 7: "k", 8: "part", 9: "k"}
 # sig 6: x = 2j -> (1, 20 + j), x = 2j + 1 -> (12, j): "1" ++ "2j" = "12" ++ "j"
 SIG_ARGS = {0: "x", 1: "x, &format!(\"s{}\", x)", 2: "x / 2", 3: "", 4: "x, true, 'c', Some(x)", 5: "(x % 2, 7), x / 2",
             6: "if x % 2 == 0 { 1 } else { 12 }, if x % 2 == 0 { 20 + x / 2 } else { x / 2 }",
             7: "if x % 2 == 0 { Rest2::BC } else { Rest2::C }, x / 2",
-            8: "1, 2, x, 3"}
+            8: "1, 2, x, 3",
+            9: "&strs9(x).0, strs9(x).1, x / 2"}
 SIG_KEY = {0: 'format!("{:?}", x)',
            1: 'format!("{:?}|{:?}", x, format!("s{}", x).as_str())',
            2: 'format!("{:?}|{:?}", recv(x), x / 2)',
@@ -215,7 +227,8 @@ SIG_KEY = {0: 'format!("{:?}", x)',
            5: 'format!("{:?}|{:?}", (x % 2, 7u32), x / 2)',
            6: 'format!("{:?}|{:?}", if x % 2 == 0 { 1u32 } else { 12 }, if x % 2 == 0 { 20 + x / 2 } else { x / 2 })',
            7: 'format!("{:?}|{:?}|{:?}", half(x), if x % 2 == 0 { Rest2::BC } else { Rest2::C }, x / 2)',
-           8: 'format!("{:?}|{:?}|{:?}|{:?}", 1u32, 2u32, x, 3u32)'}
+           8: 'format!("{:?}|{:?}|{:?}|{:?}", 1u32, 2u32, x, 3u32)',
+           9: 'format!("{:?}|{:?}|{:?}", strs9(x).0.as_str(), strs9(x).1, x / 2)'}
 BODY = ["body_u64", "body_string", "body_res_u64", "body_res_string", "body_slow", "body_weighted"]
 
 
@@ -239,6 +252,8 @@ def emit(fns, out):
     o.append("pub static HALF_A: Half = Half::A;")
     o.append("pub static HALF_AB: Half = Half::AB;")
     o.append("pub fn half(x: u32) -> &'static Half { if x % 2 == 0 { &HALF_A } else { &HALF_AB } }")
+    o.append("/// x = 2j -> (\"kj|m\", \"n\"), x = 2j + 1 -> (\"kj\", \"m|n\"): alike once the quotes are gone")
+    o.append("pub fn strs9(x: u32) -> (String, String) { if x % 2 == 0 { (format!(\"k{}|m\", x / 2), \"n\".to_string()) } else { (format!(\"k{}\", x / 2), \"m|n\".to_string()) } }")
     for f in fns:
         i = f["idx"]
         ret = RET[f["ret"]]
